@@ -119,7 +119,16 @@ pub fn gen(prop: &str, scen: &str, _k: u64, seed: u64, tier: &str) -> Case {
         "mt.hostile" => {
             case.set("role", 1);
             case.set("hostile", 1);
-            match r_f.below(4) {
+            match r_f.below(5) {
+                4 => {
+                    // size fields of a member trailer at their extremes (the MT LZIP reader
+                    // walks the file backwards by these fields)
+                    case.fmt = "lzipmt".into();
+                    case.set("trailer_member", r_f.below(12) as i64);
+                    case.set("trailer_field", r_f.below(2) as i64);
+                    case.set("trailer_value", *r_f.pick(&[0i64, 1, 19, 20, 25, 26, 27, i64::MAX, -1, 1 << 40]));
+                    case.set("trailer_delta", *r_f.pick(&[0i64, 0, 1, -1, 6, -6]));
+                }
                 0 => {
                     // pure garbage, optionally behind a plausible start
                     case.set("garbage", 1 + r_f.below(3) as i64);
@@ -422,7 +431,10 @@ fn writer_phase(case: &Case, data: &[u8], drop_at: Option<u64>) -> Phase {
 fn reader_phase(case: &Case, stream: &Arc<Vec<u8>>, cap: usize, drop_at: Option<u64>) -> Phase {
     let mut ph = Phase { ran: true, ..Default::default() };
     lz::verif::census_reset();
-    let src = SimSource::from_arc(stream.clone(), &case.src_policy, &case.src_faults);
+    let mut src = SimSource::from_arc(stream.clone(), &case.src_policy, &case.src_faults);
+    // in-run budget: a reader that keeps calling its source without end is stopped (and
+    // reported) long before it can exhaust memory or the watchdog
+    src.call_cap = 200_000 + 64 * stream.len() as u64 + 4 * cap as u64 / 1024;
     let stats = src.stats();
     let preset = case.opt.preset.as_ref().map(|p| p.gen());
     let sizes = case.read_sizes();
@@ -776,6 +788,21 @@ fn exec_reader(case: &Case, data: &Arc<Vec<u8>>, ctx: &mut Ctx) -> Option<Violat
             }
             applied += 1;
         }
+        if case.knobs.contains_key("trailer_member") {
+            if let Some(members) = parsers::lzip_members(&stream) {
+                if !members.is_empty() {
+                    let m = &members[(case.knob("trailer_member") as usize) % members.len()];
+                    let end = m.start + m.len;
+                    let pos = if case.knob("trailer_field") == 0 { end - 8 } else { end - 16 };
+                    let old = u64::from_le_bytes(stream[pos..pos + 8].try_into().unwrap());
+                    let new = if case.knob("trailer_delta") != 0 { old.wrapping_add(case.knob("trailer_delta") as u64) } else { case.knob("trailer_value") as u64 };
+                    if new != old {
+                        stream[pos..pos + 8].copy_from_slice(&new.to_le_bytes());
+                        applied += 1;
+                    }
+                }
+            }
+        }
         if case.knob("many") > 0 {
             let count = case.knob("many") as usize;
             let st = st_case(case);
@@ -831,6 +858,9 @@ fn exec_reader(case: &Case, data: &Arc<Vec<u8>>, ctx: &mut Ctx) -> Option<Violat
     }
     if r.census.2 > 1 {
         ctx.probe("mt_more_than_one_worker", 1);
+    }
+    if r.io.fired.contains_key("call_cap") {
+        return Some(Violation::new("hang", comp(case, false), "source-call-budget", format!("the reader made more than {} read/seek calls on a {} byte input (endless loop over its source)", 200_000 + 64 * stream.len(), stream.len())));
     }
     if let Some((_, n)) = r.after_error.iter().find(|(ok, n)| *ok && *n > 0) {
         return Some(Violation::new("data-after-error", comp(case, false), case.fmt.clone(), format!("after read() had returned an error, a later read() returned Ok({n}): data from behind the failed unit delivered as if nothing had happened")));
